@@ -73,6 +73,43 @@ def no_known(fn, kinds, base, got, kind, sel_vars):
     return None
 
 
+# generators that delegate (`yield from`): what the driver sends — falsy values included —, throws and closes goes
+# to the sub-generator exactly as in the untouched function
+DELEGATING = [
+    {"name": "f", "params": ["a"], "generator": True, "body": [
+        ("yieldfrom", "x", "SUB(1, 3)"), ("yield", None, "x"), ("yieldfrom", None, "T(2, 'list', 2)"),
+        ("return", "x")]},
+    {"name": "f", "params": [], "generator": True, "body": [
+        ("for", ("name", "i"), "T(1, 'list', 2)", [("yieldfrom", "y", "SUB(2, 2)"), ("expr", "H(3, y, i)")], []),
+        ("try", [("yieldfrom", "z", "SUB(4, 2)")], [("Boom", "e", [("yield", None, "H(5)")])], [], [("expr", "H(6)")]),
+        ("return", "z")]},
+]
+
+
+def delegation(chk, rng, stats):
+    sends = [0, "", False, None, 3, [], "s", 7]
+    n = 6 if chk.tier == "quick" else 80
+    for fn in DELEGATING:
+        src = pylite.render(fn)
+        for _ in range(n):
+            gscript = [["next"]]
+            for _ in range(rng.randrange(2, 8)):
+                r = rng.random()
+                if r < 0.65:
+                    gscript.append(["send", rng.choice(sends)])
+                elif r < 0.8:
+                    gscript.append(["next"])
+                elif r < 0.9:
+                    gscript.append(["throw", rng.randrange(0, 9)])
+                else:
+                    gscript.append(["close"])
+                    break
+            args = [rng.randrange(0, 9) for _ in fn["params"]]
+            chk.count(src + json.dumps(gscript), nontrivial=True)
+            chk.dist("delegating-generator")
+            compare(chk, fn, src, args, [True] * 12, gscript, stats, "delegating", no_known)
+
+
 def run(chk):
     m2corr.ast_leg(chk, 120 if chk.tier == "quick" else 2500)
     m2corr.exec_leg(chk, 100 if chk.tier == "quick" else 2000)
@@ -104,6 +141,7 @@ def run(chk):
         if i % 40 == 0:
             chk.sample({"source": src, "args": args, "script": script, "gen_script": gscript})
     chk.cov["oracle"]["differential"] = stats
+    delegation(chk, rng, stats)
     globals_between_calls(chk, rng)
 
 
